@@ -145,20 +145,20 @@ theorem C04_evaluation_order_total (nodes : Array ParseNode) (root ρ x z : Nat)
       · exact Or.inr (Or.inl (EmitBefore.operands y b a yn hyn hty hl hr (Or.inr hk) hbz hax))
       · exact Or.inl (EmitBefore.swapped y b a yn hyn hty hl hr hk hax hbz)
 
-/-! ### what stays open: the mutual order of two out-of-line parts -/
+/-! ### the mutual order of two out-of-line parts (proved in Props/C04Eval2.lean) -/
 
-/-- the last visit of `y1` comes before the last visit of `y2` (two nodes of one root) -/
-def LastBefore (nodes : Array ParseNode) (y1 y2 : Nat) : Prop :=
-  (∃ w a b, Ord nodes w a b ∧ IDesc nodes a y1 ∧ IDesc nodes b y2) ∨ (∃ c, PreC nodes y2 c ∧ IDesc nodes c y1) ∨
-  (∃ c, PostC nodes y1 c ∧ IDesc nodes c y2)
+/-- the last visit of `y1` comes before the last visit of `y2` (two nodes of one root); `w` has to be a node of the tree
+(an unlinked Subexpression node may carry stale links) -/
+def LastBefore (nodes : Array ParseNode) (root y1 y2 : Nat) : Prop :=
+  (∃ w a b, InTree nodes root w ∧ Ord nodes w a b ∧ IDesc nodes a y1 ∧ IDesc nodes b y2) ∨
+  (∃ c, PreC nodes y2 c ∧ IDesc nodes c y1) ∨ (∃ c, PostC nodes y1 c ∧ IDesc nodes c y2)
 
-/-- NOT proved (stated for the owners that always schedule in their own last visit: And, Or, NestedExpression).
-`root_stack` is a stack: of two out-of-line children scheduled while one root is built, the one scheduled later is emitted
-first, with its whole subtree.  For the arms of conditionals the scheduling moment is not the owner's last visit when the
-JumpIf… sits in an else-chain: the chain head collects the arms (in source order) and pushes them together in its own last
-visit, so they are emitted in reverse source order after everything that was scheduled before the head finished
-(`exElse` in Props/C04OrderEx.lean).  Proving this needs, on top of Lemmas/BuildSeq*.lean, the positions on `root_stack`
-and the static description of `conditional_parent`. -/
+/-- `root_stack` is a stack: of two out-of-line children scheduled while one root is built, the one scheduled later is
+emitted first, with its whole subtree — stated here for the owners that always schedule in their own last visit (And, Or,
+NestedExpression).  Proved in Props/C04Eval2.lean (`C04_out_of_line_lifo_direct`), together with the general form that
+covers the arms of conditionals (`C04_out_of_line_lifo`): when the JumpIf… sits in an else-chain the chain head collects
+the arms (in source order) and pushes them together in its own last visit, so they are emitted in reverse source order
+after everything that was scheduled before the head finished (`exElse` in Props/C04OrderEx.lean). -/
 def C04_out_of_line_lifo_statement (F : Type) : Prop :=
   ∀ (parseFloat : List Char → Option F) (fuel root : Nat) (nodes : Array ParseNode) (d d' : BState F) (entry : Nat),
     build parseFloat fuel root nodes d = .ok (d', entry) →
@@ -166,7 +166,7 @@ def C04_out_of_line_lifo_statement (F : Type) : Prop :=
       nodes[y1]? = some n1 → nodes[y2]? = some n2 → n1.right = some r1 → n2.right = some r2 →
       (n1.definition = .and ∨ n1.definition = .or ∨ n1.definition = .nestedExpression) →
       (n2.definition = .and ∨ n2.definition = .or ∨ n2.definition = .nestedExpression) →
-      LastBefore nodes y1 y2 →
+      LastBefore nodes root y1 y2 →
       ∀ x z kx kz : Nat, Sub nodes r2 x → Sub nodes r1 z → d.metadata.size ≤ kx → d.metadata.size ≤ kz →
         d'.metadata[kx]? = some (some x) → d'.metadata[kz]? = some (some z) → kx < kz
 
